@@ -107,6 +107,7 @@ def run(pid, tier, seed, update_ledger=False):
         axioms_checked = dict(validated=len(ck), skipped=[n for n, _ in sk], failed=[n for n, _ in fl])
         for n, m in fl:
             errors.append('prelude axiom %s is %s: proofs that use it cannot be trusted' % (n, m))
+        driver.LOCALS_AT_LEDGER = ledger.get('__locals__', {})
         E, results = driver.verify(prop.FUNCTIONS, prop.SIDECARS, timeout_ms=timeout_ms, second_opinion=(tier == 'thorough'))
     n_obl = n_dis = 0
     second = {}
@@ -308,6 +309,13 @@ def run(pid, tier, seed, update_ledger=False):
             print('not updating ledger: run is not clean')
         else:
             ledger[pid] = {fr.qual: agg(fr.obligations) for fr in results}
+            # the local names of each verified function as they are now: lets a later run recognise a renamed local
+            # (driver.rename_tolerance) instead of failing to bind the sidecar contract
+            loc = ledger.setdefault('__locals__', {})
+            for fr in results:
+                names = driver.function_locals(E, fr.qual) if E is not None else None
+                if names is not None:
+                    loc[fr.qual] = names
             with open(LEDGER, 'w') as f:
                 json.dump(ledger, f, indent=1, sort_keys=True)
     # fixed findings are only listed
@@ -315,6 +323,7 @@ def run(pid, tier, seed, update_ledger=False):
     wall = time.time() - t0
     level = getattr(prop, 'LEVEL', 'proof')
     cov = dict(
+        renamed_locals={q: dict(now=v[0], verified_as=v[1]) for q, v in getattr(driver, 'RENAMED', {}).items()},
         obligations=n_obl, discharged=n_dis,
         checker_cmd='cd /verif && ./check %s --tier %s   (pyvc VC generator over %s; z3 %s, E-matching, per-obligation timeout %d ms)'
                     % (pid, tier, os.environ.get('HEPH_REPO', '/repo'), __import__('z3').get_version_string(), timeout_ms),
